@@ -125,22 +125,30 @@ Proof.
     apply dec_digits_spec; [|lia]. split; [lia|]. apply log2_fuel_ok. lia.
 Qed.
 
-(* atoll (printf z) = z over the whole 64-bit range *)
-Lemma ref_atoll_print_dec z : int64_min <= z <= int64_max -> ref_atoll (print_dec z) = z.
+(* atoll (printf z) for every integer: z, saturated at the int64 bounds *)
+Lemma ref_atoll_print_dec_sat z : ref_atoll (print_dec z) = clamp64 z.
 Proof.
-  intros R. destruct (print_dec_shape z) as [P N]. destruct (Z_lt_le_dec z 0) as [Hz|Hz].
+  destruct (print_dec_shape z) as [P N]. destruct (Z_lt_le_dec z 0) as [Hz|Hz].
   - destruct (N Hz) as (ds & -> & D & V & _). unfold ref_atoll. cbn [Z.eqb Pos.eqb].
     rewrite <- (app_nil_r ds), digits_val_fold by exact D. cbn [digits_val]. rewrite V.
-    unfold clamp64, int64_min, int64_max in *. destruct (- - z <? _) eqn:?; [lia|].
-    destruct (_ <? - - z) eqn:?; lia.
+    f_equal. lia.
   - destruct (P Hz) as (D & V & NE). destruct (print_dec z) as [|c t] eqn:Ep; [congruence|].
     unfold ref_atoll. pose proof (Forall_inv D) as Hc. cbn beta in Hc.
     destruct (c =? 45) eqn:E1; [unfold is_digit in Hc; lia|].
     destruct (c =? 43) eqn:E2; [unfold is_digit in Hc; lia|].
     rewrite <- (app_nil_r (c :: t)), digits_val_fold by exact D. cbn [digits_val]. rewrite V.
-    unfold clamp64, int64_min, int64_max in *. destruct (z <? _) eqn:?; [lia|].
-    destruct (_ <? z) eqn:?; lia.
+    reflexivity.
 Qed.
+
+Lemma clamp64_id z : int64_min <= z <= int64_max -> clamp64 z = z.
+Proof.
+  intros R. unfold clamp64, int64_min, int64_max in *. destruct (z <? _) eqn:?; [lia|].
+  destruct (_ <? z) eqn:?; lia.
+Qed.
+
+(* atoll (printf z) = z over the whole 64-bit range *)
+Lemma ref_atoll_print_dec z : int64_min <= z <= int64_max -> ref_atoll (print_dec z) = z.
+Proof. intros R. rewrite ref_atoll_print_dec_sat. apply clamp64_id, R. Qed.
 
 Lemma print_dec_numch z : Forall (fun c => numch c = true) (print_dec z) /\ print_dec z <> [].
 Proof.
@@ -228,10 +236,10 @@ Proof. cbn [lit_true app]. rewrite rt_nonspace by reflexivity. reflexivity. Qed.
 Lemma rt_false l r : read_token (mkPos l (lit_false ++ r)) = Ok (mkPos l r, (102, JBool false)).
 Proof. cbn [lit_false app]. rewrite rt_nonspace by reflexivity. reflexivity. Qed.
 
-Lemma rt_num l z r : int64_min <= z <= int64_max -> num_stop r ->
-  read_token (mkPos l (print_dec z ++ r)) = Ok (mkPos l r, (35, classify_int z)).
+Lemma rt_num_sat l z r : num_stop r ->
+  read_token (mkPos l (print_dec z ++ r)) = Ok (mkPos l r, (35, classify_int (clamp64 z))).
 Proof.
-  intros R ST. destruct (print_dec_numch z) as [D NE].
+  intros ST. destruct (print_dec_numch z) as [D NE].
   destruct (print_dec z) as [|c t] eqn:Ep; [congruence|].
   inversion D as [|? ? Hc Dt]; subst. unfold numch in Hc.
   cbn [app]. rewrite rt_nonspace by (unfold is_space, is_digit in *; lia).
@@ -244,8 +252,12 @@ Proof.
   destruct (c =? 110) eqn:?; [unfold is_digit in *; lia|].
   rewrite Hc. change (c :: t ++ r) with ((c :: t) ++ r).
   rewrite num_loop_scan; [|exact D|exact ST|rewrite app_length; cbn [length]; lia].
-  cbn [bind rev app]. rewrite <- Ep, ref_atoll_print_dec by exact R. reflexivity.
+  cbn [bind rev app]. rewrite <- Ep, ref_atoll_print_dec_sat. reflexivity.
 Qed.
+
+Lemma rt_num l z r : int64_min <= z <= int64_max -> num_stop r ->
+  read_token (mkPos l (print_dec z ++ r)) = Ok (mkPos l r, (35, classify_int z)).
+Proof. intros R ST. rewrite rt_num_sat by exact ST. rewrite clamp64_id by exact R. reflexivity. Qed.
 
 (* ================= layer 4: the recursive composite ================= *)
 (* induction principle for the nested tree type *)
@@ -259,6 +271,9 @@ Section ValueInd.
   Hypothesis Hstring : forall s, P (JString s).
   Hypothesis Hlist : forall l, Forall P l -> P (JList l).
   Hypothesis Hmap : forall m, Forall (fun kx => P (snd kx)) m -> P (JMap m).
+  Hypothesis Huint : forall z, P (JUInt z).
+  Hypothesis Huint64 : forall z, P (JUInt64 z).
+  Hypothesis Harray : forall l, Forall P l -> P (JArray l).
   Fixpoint value_ind2 (v : value) : P v :=
     match v with
     | JNull => Hnull
@@ -277,6 +292,13 @@ Section ValueInd.
                            | [] => Forall_nil _
                            | kx :: t => Forall_cons kx (value_ind2 (snd kx)) (go t)
                            end) m)
+    | JUInt z => Huint z
+    | JUInt64 z => Huint64 z
+    | JArray l => Harray l ((fix go (l : list value) : Forall P l :=
+                               match l with
+                               | [] => Forall_nil _
+                               | x :: t => Forall_cons x (value_ind2 x) (go t)
+                               end) l)
     end.
 End ValueInd.
 
@@ -305,6 +327,26 @@ Lemma in_class_map m : in_class (JMap m) = true ->
 Proof.
   induction m as [|[k x] t IH]; intros H; [split; constructor|].
   cbn [in_class] in H. apply andb_true_iff in H as [H H4]. apply andb_true_iff in H as [H H3].
+  apply andb_true_iff in H as [H1 H2]. destruct (IH H4) as [F N]. split.
+  - constructor; [|exact F]. cbn [fst snd]. split; [now apply str_ok_nulfree|exact H2].
+  - cbn [map fst]. constructor; [|exact N]. rewrite <- key_in_spec. destruct (key_in k t); [discriminate|congruence].
+Qed.
+
+(* the same for the extended class (unsigned integers and arrays allowed) *)
+Lemma in_ext_list l : in_ext (JList l) = true -> Forall (fun x => in_ext x = true) l.
+Proof.
+  induction l as [|x t IH]; intros H; [constructor|].
+  cbn [in_ext] in H. apply andb_true_iff in H as [H1 H2]. constructor; [exact H1|]. apply IH. exact H2.
+Qed.
+
+Lemma in_ext_array l : in_ext (JArray l) = true -> Forall (fun x => in_ext x = true) l.
+Proof. exact (in_ext_list l). Qed.
+
+Lemma in_ext_map m : in_ext (JMap m) = true ->
+  Forall (fun kx => nulfree (fst kx) /\ in_ext (snd kx) = true) m /\ NoDup (map fst m).
+Proof.
+  induction m as [|[k x] t IH]; intros H; [split; constructor|].
+  cbn [in_ext] in H. apply andb_true_iff in H as [H H4]. apply andb_true_iff in H as [H H3].
   apply andb_true_iff in H as [H1 H2]. destruct (IH H4) as [F N]. split.
   - constructor; [|exact F]. cbn [fst snd]. split; [now apply str_ok_nulfree|exact H2].
   - cbn [map fst]. constructor; [|exact N]. rewrite <- key_in_spec. destruct (key_in k t); [discriminate|congruence].
@@ -343,7 +385,10 @@ Lemma emit_map_cons kx t ind :
   emit (JMap (kx :: t)) ind = 123 :: 10 :: emit_members (E ind) (nind ind) (kx :: t) ++ 10 :: ind ++ [125].
 Proof. reflexivity. Qed.
 
-Lemma emit_nonempty v ind : in_class v = true -> (1 <= length (emit v ind))%nat.
+Lemma emit_array_cons x t ind : emit (JArray (x :: t)) ind = emit (JList (x :: t)) ind.
+Proof. reflexivity. Qed.
+
+Lemma emit_nonempty v ind : in_ext v = true -> (1 <= length (emit v ind))%nat.
 Proof.
   destruct v; intros H; try discriminate.
   - cbn. lia.
@@ -353,6 +398,9 @@ Proof.
   - cbn. lia.
   - destruct l; [cbn; lia|rewrite emit_list_cons; cbn [length]; lia].
   - destruct m; [cbn; lia|rewrite emit_map_cons; cbn [length]; lia].
+  - cbn [emit]. destruct (print_dec_numch z) as [_ NE]. destruct (print_dec z); [congruence|cbn; lia].
+  - cbn [emit]. destruct (print_dec_numch z) as [_ NE]. destruct (print_dec z); [congruence|cbn; lia].
+  - destruct l; [cbn; lia|rewrite emit_array_cons, emit_list_cons; cbn [length]; lia].
 Qed.
 
 (* ---------- bind bookkeeping ---------- *)
@@ -366,21 +414,21 @@ Proof. destruct x as [[a b]| | |]; reflexivity. Qed.
 
 (* the statement proved by induction on the tree *)
 Definition RT (v : value) : Prop :=
-  forall ind l rest f, in_class v = true -> tabs ind -> num_stop rest ->
+  forall ind l rest f, in_ext v = true -> tabs ind -> num_stop rest ->
     (length (emit v ind) <= f)%nat ->
     exists l', bind (read_token (mkPos l (emit v ind ++ rest))) (fun '(p, t) => parse_value f p t)
-             = bind (read_token (mkPos l' rest)) (fun '(p', t') => Ok (canon v, p', t')).
+             = bind (read_token (mkPos l' rest)) (fun '(p', t') => Ok (readback v, p', t')).
 
 (* the first token of an emitted value is never a closing bracket (the loops go on) *)
-Lemma first_token v ind l rest : in_class v = true -> num_stop rest ->
+Lemma first_token v ind l rest : in_ext v = true -> num_stop rest ->
   exists p t, read_token (mkPos l (emit v ind ++ rest)) = Ok (p, t) /\ fst t <> 93 /\ fst t <> 125.
 Proof.
   intros C ST. destruct v; try discriminate.
   - cbn [emit]. rewrite rt_null. do 2 eexists. split; [reflexivity|cbn; lia].
   - destruct b; cbn [emit]; [rewrite rt_true|rewrite rt_false]; do 2 eexists; (split; [reflexivity|cbn; lia]).
-  - cbn [emit]. rewrite rt_num; [|cbn in C; unfold int64_min, int64_max; lia|exact ST].
+  - cbn [emit]. rewrite rt_num_sat by exact ST.
     do 2 eexists. split; [reflexivity|cbn; lia].
-  - cbn [emit]. rewrite rt_num; [|cbn in C; unfold int64_min, int64_max; lia|exact ST].
+  - cbn [emit]. rewrite rt_num_sat by exact ST.
     do 2 eexists. split; [reflexivity|cbn; lia].
   - cbn [emit]. rewrite rt_string by (apply str_ok_nulfree; exact C).
     do 2 eexists. split; [reflexivity|cbn; lia].
@@ -392,6 +440,14 @@ Proof.
     + cbn [emit app]. rewrite rt_punct by reflexivity. do 2 eexists. split; [reflexivity|cbn; lia].
     + rewrite emit_map_cons. cbn [app]. rewrite rt_punct by reflexivity.
       do 2 eexists. split; [reflexivity|cbn; lia].
+  - cbn [emit]. rewrite rt_num_sat by exact ST.
+    do 2 eexists. split; [reflexivity|cbn; lia].
+  - cbn [emit]. rewrite rt_num_sat by exact ST.
+    do 2 eexists. split; [reflexivity|cbn; lia].
+  - destruct l0.
+    + cbn [emit app]. rewrite rt_punct by reflexivity. do 2 eexists. split; [reflexivity|cbn; lia].
+    + rewrite emit_array_cons, emit_list_cons. cbn [app]. rewrite rt_punct by reflexivity.
+      do 2 eexists. split; [reflexivity|cbn; lia].
 Qed.
 
 Lemma num_stop_lf r : num_stop (10 :: r).
@@ -400,10 +456,10 @@ Lemma num_stop_comma r : num_stop (44 :: r).
 Proof. reflexivity. Qed.
 
 Lemma scalar_case v k ind l rest f :
-  read_token (mkPos l (emit v ind ++ rest)) = Ok (mkPos l rest, (k, canon v)) ->
+  read_token (mkPos l (emit v ind ++ rest)) = Ok (mkPos l rest, (k, readback v)) ->
   is_scalar_tok k = true -> (1 <= f)%nat ->
   exists l', bind (read_token (mkPos l (emit v ind ++ rest))) (fun '(p, t) => parse_value f p t)
-           = bind (read_token (mkPos l' rest)) (fun '(p', t') => Ok (canon v, p', t')).
+           = bind (read_token (mkPos l' rest)) (fun '(p', t') => Ok (readback v, p', t')).
 Proof.
   intros R K Hf. exists l. rewrite R. cbn [bind]. destruct f as [|f]; [lia|].
   cbn [parse_value fst snd]. rewrite K. reflexivity.
@@ -411,13 +467,13 @@ Qed.
 
 (* ---------- parseArray over the emitted elements ---------- *)
 Lemma arr_items ind rest : tabs ind -> forall xs, xs <> [] ->
-  Forall (fun x => in_class x = true /\ RT x) xs ->
+  Forall (fun x => in_ext x = true /\ RT x) xs ->
   forall acc w l f, ws_only w ->
     (length (emit_items (E ind) (nind ind) xs) + 1 <= f)%nat ->
     exists l',
       bind (read_token (mkPos l (w ++ emit_items (E ind) (nind ind) xs ++ 10 :: ind ++ 93 :: rest)))
            (fun '(p, t) => arr_loop f p t acc)
-      = bind (read_token (mkPos l' rest)) (fun '(p', t') => Ok (JList (rev acc ++ map canon xs), p', t')).
+      = bind (read_token (mkPos l' rest)) (fun '(p', t') => Ok (JList (rev acc ++ map readback xs), p', t')).
 Proof.
   intros TI. assert (TN : tabs (nind ind)) by (apply tabs_snoc; exact TI).
   induction xs as [|x t IHt]; intros NE F acc w l f W Hf; [congruence|].
@@ -440,7 +496,7 @@ Proof.
     eexists. cbn [map rev]. reflexivity.
   - (* ",\n" and the next element *)
     cbn [app]. rewrite rt_punct by reflexivity. cbn [bind fst snd Z.eqb Pos.eqb negb].
-    destruct (IHt ltac:(discriminate) Ft (canon x :: acc) [10] l2 f ws_lf) as (l3 & EQ).
+    destruct (IHt ltac:(discriminate) Ft (readback x :: acc) [10] l2 f ws_lf) as (l3 & EQ).
     { rewrite app_length in Hf. cbn [length] in Hf. lia. }
     exists l3. cbn [app] in EQ. rewrite EQ.
     cbn [map rev]. rewrite <- app_assoc. reflexivity.
@@ -459,10 +515,10 @@ Lemma reassoc2 (w a b c m z : list Z) :
   w ++ (a ++ b ++ [58; 32] ++ c ++ m) ++ z = (w ++ a) ++ b ++ 58 :: [32] ++ c ++ (m ++ z).
 Proof. rewrite <- !app_assoc. reflexivity. Qed.
 
-Definition canon_member (kx : list Z * value) : list Z * value := (fst kx, canon (snd kx)).
+Definition canon_member (kx : list Z * value) : list Z * value := (fst kx, readback (snd kx)).
 
 Lemma obj_items ind rest : tabs ind -> forall m, m <> [] ->
-  Forall (fun kx => nulfree (fst kx) /\ in_class (snd kx) = true /\ RT (snd kx)) m ->
+  Forall (fun kx => nulfree (fst kx) /\ in_ext (snd kx) = true /\ RT (snd kx)) m ->
   NoDup (map fst m) ->
   forall acc w l f, ws_only w ->
     (forall k, In k (map fst m) -> ~ In k (map fst acc)) ->
@@ -498,7 +554,7 @@ Proof.
     eexists. rewrite map_upsert_fresh by exact FRk. reflexivity.
   - cbn [app]. rewrite rt_punct by reflexivity. cbn [bind fst snd Z.eqb Pos.eqb negb].
     rewrite map_upsert_fresh by exact FRk.
-    destruct (IHt ltac:(discriminate) Ft NDt (acc ++ [(k, canon x)]) [10] l2 f ws_lf) as (l3 & EQ).
+    destruct (IHt ltac:(discriminate) Ft NDt (acc ++ [(k, readback x)]) [10] l2 f ws_lf) as (l3 & EQ).
     { intros k2 Hk2. rewrite map_app, in_app_iff. cbn [map fst In]. intros [X|[X|[]]].
       - apply (FR k2); [right; exact Hk2|exact X].
       - subst k2. apply NIk. exact Hk2. }
@@ -510,6 +566,36 @@ Qed.
 Lemma fits_same z : fits_int32 z = fits32 z.
 Proof. reflexivity. Qed.
 
+Lemma clamp64_sat63 z : 0 <= z -> clamp64 z = sat63 z.
+Proof.
+  intros Hz. unfold clamp64, sat63, int64_min, int64_max. destruct (z <? _) eqn:?; [lia|]. reflexivity.
+Qed.
+
+(* a bracketed sequence of emitted items: the text of the list case and of the array case *)
+Lemma RT_items l : Forall RT l -> forall ind ln rest f,
+  Forall (fun x => in_ext x = true) l -> tabs ind -> num_stop rest ->
+  (length (emit (JList l) ind) <= f)%nat ->
+  exists l', bind (read_token (mkPos ln (emit (JList l) ind ++ rest))) (fun '(p, t) => parse_value f p t)
+           = bind (read_token (mkPos l' rest)) (fun '(p', t') => Ok (JList (map readback l), p', t')).
+Proof.
+  intros H ind ln rest f C TI ST Hf. destruct l as [|x t].
+  - exists ln. cbn [emit app map]. rewrite rt_punct by reflexivity. cbn [bind].
+    destruct f as [|[|f]]; [cbn in Hf; lia|cbn in Hf; lia|].
+    cbn [parse_value fst snd is_scalar_tok Z.eqb Pos.eqb orb].
+    rewrite rt_punct by reflexivity. cbn [bind arr_loop fst snd Z.eqb Pos.eqb rev]. reflexivity.
+  - rewrite emit_list_cons in Hf |- *. cbn [app length] in Hf |- *.
+    rewrite rt_punct by reflexivity. cbn [bind]. destruct f as [|f]; [lia|].
+    cbn [parse_value fst snd is_scalar_tok Z.eqb Pos.eqb orb].
+    rewrite <- app_assoc. cbn [app]. rewrite <- app_assoc. cbn [app].
+    rewrite !app_length in Hf. cbn [length] in Hf.
+    destruct (arr_items ind rest TI (x :: t) ltac:(discriminate)) with (acc := @nil value) (w := [10]) (l := ln) (f := f)
+      as (l' & EQ).
+    * rewrite Forall_forall in *. intros y Hy. split; [apply C|apply H]; exact Hy.
+    * exact ws_lf.
+    * lia.
+    * exists l'. cbn [app] in EQ. rewrite EQ. reflexivity.
+Qed.
+
 Lemma RT_all v : RT v.
 Proof.
   induction v using value_ind2; intros ind ln rest f C TI ST Hf;
@@ -519,34 +605,19 @@ Proof.
     + apply (scalar_case (JBool true) 116); [apply rt_true|reflexivity|lia].
     + apply (scalar_case (JBool false) 102); [apply rt_false|reflexivity|lia].
   - apply (scalar_case (JInt z) 35); [|reflexivity|lia].
-    cbn [emit canon]. rewrite rt_num; [|cbn in C; unfold int64_min, int64_max; lia|exact ST].
-    unfold classify_int. cbn [in_class] in C. unfold fits_int32. rewrite C. reflexivity.
+    cbn [emit readback]. rewrite rt_num; [|cbn in C; unfold int64_min, int64_max; lia|exact ST].
+    unfold classify_int. cbn [in_ext] in C. unfold fits_int32. rewrite C. reflexivity.
   - apply (scalar_case (JInt64 z) 35); [|reflexivity|lia].
-    cbn [emit canon]. rewrite rt_num; [|cbn in C; unfold int64_min, int64_max; lia|exact ST].
-    unfold classify_int. rewrite fits_same. reflexivity.
+    cbn [emit readback]. rewrite rt_num; [|cbn in C; unfold int64_min, int64_max; lia|exact ST].
+    reflexivity.
   - discriminate.
   - apply (scalar_case (JString s) 34); [|reflexivity|lia].
-    cbn [emit canon]. apply rt_string. apply str_ok_nulfree. exact C.
+    cbn [emit readback]. apply rt_string. apply str_ok_nulfree. exact C.
   - (* lists *)
-    destruct l as [|x t].
-    + exists ln. cbn [emit app canon map]. rewrite rt_punct by reflexivity. cbn [bind].
-      destruct f as [|[|f]]; [cbn in Hf; lia|cbn in Hf; lia|].
-      cbn [parse_value fst snd is_scalar_tok Z.eqb Pos.eqb orb].
-      rewrite rt_punct by reflexivity. cbn [bind arr_loop fst snd Z.eqb Pos.eqb rev]. reflexivity.
-    + rewrite emit_list_cons in Hf |- *. cbn [app length] in Hf |- *.
-      rewrite rt_punct by reflexivity. cbn [bind]. destruct f as [|f]; [lia|].
-      cbn [parse_value fst snd is_scalar_tok Z.eqb Pos.eqb orb].
-      rewrite <- app_assoc. cbn [app]. rewrite <- app_assoc. cbn [app].
-      rewrite !app_length in Hf. cbn [length] in Hf.
-      destruct (arr_items ind rest TI (x :: t) ltac:(discriminate)) with (acc := @nil value) (w := [10]) (l := ln) (f := f)
-        as (l' & EQ).
-      * apply in_class_list in C. rewrite Forall_forall in *. intros y Hy. split; [apply C|apply H]; exact Hy.
-      * exact ws_lf.
-      * lia.
-      * exists l'. cbn [app] in EQ. rewrite EQ. reflexivity.
+    apply (RT_items l H ind ln rest f); [apply in_ext_list; exact C|exact TI|exact ST|exact Hf].
   - (* maps *)
     destruct m as [|kx t].
-    + exists ln. cbn [emit app canon map]. rewrite rt_punct by reflexivity. cbn [bind].
+    + exists ln. cbn [emit app readback map]. rewrite rt_punct by reflexivity. cbn [bind].
       destruct f as [|[|f]]; [cbn in Hf; lia|cbn in Hf; lia|].
       cbn [parse_value fst snd is_scalar_tok Z.eqb Pos.eqb orb].
       rewrite rt_punct by reflexivity. cbn [bind obj_loop fst snd Z.eqb Pos.eqb]. reflexivity.
@@ -555,7 +626,7 @@ Proof.
       cbn [parse_value fst snd is_scalar_tok Z.eqb Pos.eqb orb].
       rewrite <- app_assoc. cbn [app]. rewrite <- app_assoc. cbn [app].
       rewrite !app_length in Hf. cbn [length] in Hf.
-      destruct (in_class_map _ C) as [FC ND].
+      destruct (in_ext_map _ C) as [FC ND].
       destruct (obj_items ind rest TI (kx :: t) ltac:(discriminate)) with (acc := @nil (list Z * value)) (w := [10]) (l := ln) (f := f)
         as (l' & EQ).
       * rewrite Forall_forall in *. intros y Hy. destruct (FC y Hy). repeat split; auto.
@@ -564,15 +635,57 @@ Proof.
       * intros k _ [].
       * lia.
       * exists l'. cbn [app] in EQ. rewrite EQ. reflexivity.
+  - (* unsigned 32 bit: below 2^32, so atoll does not saturate *)
+    apply (scalar_case (JUInt z) 35); [|reflexivity|lia].
+    cbn [emit readback]. rewrite rt_num; [|cbn in C; unfold int64_min, int64_max; lia|exact ST].
+    reflexivity.
+  - (* unsigned 64 bit: atoll saturates from 2^63 on *)
+    apply (scalar_case (JUInt64 z) 35); [|reflexivity|lia].
+    cbn [emit readback]. rewrite rt_num_sat by exact ST.
+    rewrite clamp64_sat63 by (cbn in C; lia). reflexivity.
+  - (* arrays: the text of a list *)
+    assert (E : forall i, emit (JArray l) i = emit (JList l) i) by (intros i; destruct l; reflexivity).
+    rewrite E in Hf |- *.
+    apply (RT_items l H ind ln rest f); [apply in_ext_array; exact C|exact TI|exact ST|exact Hf].
 Qed.
 
 (* ---------- Json::parse (Json::toString v) ---------- *)
-Lemma parse_to_string v : in_class v = true -> parse (to_string v) = POk (canon v).
+(* the extension: every tree of the extended class (unsigned integers, arrays) *)
+Lemma parse_to_string_ext v : in_ext v = true -> parse (to_string v) = POk (readback v).
 Proof.
   intros C. unfold parse, to_string.
   destruct (RT_all v [] 1 [10] (parse_fuel (emit v [] ++ [10])) C ltac:(constructor) (num_stop_lf [])) as (l' & EQ).
   { unfold parse_fuel. rewrite app_length. lia. }
   rewrite EQ. reflexivity.
+Qed.
+
+(* the class of the property lies inside the extended class, and there readback is canon *)
+Lemma in_class_ext v : in_class v = true -> in_ext v = true /\ readback v = canon v.
+Proof.
+  induction v using value_ind2; intros C; try discriminate; try (split; [exact C|reflexivity]).
+  - (* lists *)
+    assert (G : (fix go (l : list value) : bool := match l with [] => true | x :: t => in_ext x && go t end) l = true
+                /\ map readback l = map canon l).
+    { induction H as [|x t Hx Ht IH]; [split; reflexivity|].
+      cbn [in_class] in C. apply andb_true_iff in C as [C1 C2].
+      destruct (Hx C1) as [E1 R1]. destruct (IH C2) as [E2 R2].
+      split; [rewrite E1; exact E2|cbn [map]; rewrite R1, R2; reflexivity]. }
+    destruct G as [G1 G2]. split; [exact G1|cbn [readback canon]; rewrite G2; reflexivity].
+  - (* maps *)
+    assert (G : (fix go (m : list (list Z * value)) : bool :=
+                   match m with [] => true | (k, x) :: t => str_ok k && in_ext x && negb (key_in k t) && go t end) m = true
+                /\ map (fun kx => (fst kx, readback (snd kx))) m = map (fun kx => (fst kx, canon (snd kx))) m).
+    { induction H as [|[k x] t Hx Ht IH]; [split; reflexivity|].
+      cbn [in_class] in C. apply andb_true_iff in C as [C C4]. apply andb_true_iff in C as [C C3].
+      apply andb_true_iff in C as [C1 C2]. cbn [snd] in Hx.
+      destruct (Hx C2) as [E1 R1]. destruct (IH C4) as [E2 R2].
+      split; [rewrite C1, E1, C3; exact E2|cbn [map fst snd]; rewrite R1, R2; reflexivity]. }
+    destruct G as [G1 G2]. split; [exact G1|cbn [readback canon]; rewrite G2; reflexivity].
+Qed.
+
+Lemma parse_to_string v : in_class v = true -> parse (to_string v) = POk (canon v).
+Proof.
+  intros C. destruct (in_class_ext v C) as [E R]. rewrite <- R. apply parse_to_string_ext, E.
 Qed.
 
 (* the tree read back is equal to the original (integers by value) *)
@@ -581,15 +694,18 @@ Proof. now apply bytes_eqb_eq. Qed.
 
 Lemma value_eq_canon v : value_eq v (canon v) = true.
 Proof.
-  induction v using value_ind2; cbn [canon value_eq]; try reflexivity.
+  induction v using value_ind2; cbn [canon value_eq int_of]; try reflexivity.
   - apply eqb_reflx.
   - apply Z.eqb_refl.
-  - destruct (fits32 z); cbn [value_eq]; apply Z.eqb_refl.
+  - destruct (fits32 z); cbn [int_of]; apply Z.eqb_refl.
   - apply bytes_eqb_refl.
   - apply bytes_eqb_refl.
   - induction H as [|x t Hx Ht IH]; [reflexivity|]. cbn [map]. rewrite Hx. exact IH.
   - induction H as [|[k x] t Hx Ht IH]; [reflexivity|]. cbn [map fst snd] in *.
     rewrite bytes_eqb_refl, Hx. exact IH.
+  - apply Z.eqb_refl.
+  - apply Z.eqb_refl.
+  - induction H as [|x t Hx Ht IH]; [reflexivity|]. cbn [map]. rewrite Hx. exact IH.
 Qed.
 
 Lemma parse_to_string_eq v : in_class v = true ->
@@ -604,6 +720,7 @@ Fixpoint canonical (v : value) : bool :=
   | JInt64 z => negb (fits32 z)
   | JList l => forallb canonical l
   | JMap m => forallb (fun kx => canonical (snd kx)) m
+  | JArray l => forallb canonical l
   | _ => true
   end.
 
@@ -615,4 +732,34 @@ Proof.
     apply andb_true_iff in C as [C1 C2]. rewrite Hx, IH; auto.
   - f_equal. induction H as [|[k x] t Hx Ht IH]; [reflexivity|]. cbn [forallb map fst snd] in *.
     apply andb_true_iff in C as [C1 C2]. rewrite Hx, IH; auto.
+  - f_equal. induction H as [|x t Hx Ht IH]; [reflexivity|]. cbn [forallb map] in *.
+    apply andb_true_iff in C as [C1 C2]. rewrite Hx, IH; auto.
+Qed.
+
+(* ---------- the extension, case by case ---------- *)
+Lemma value_eq_array_list l l' : value_eq (JArray l) (JList l') = false.
+Proof. reflexivity. Qed.
+
+Lemma readback_uint z : in_ext (JUInt z) = true ->
+  readback (JUInt z) = (if z <=? 2147483647 then JInt z else JInt64 z) /\
+  value_eq (JUInt z) (readback (JUInt z)) = true.
+Proof.
+  intros C. cbn [in_ext] in C. cbn [readback]. unfold narrow, fits32.
+  destruct (z <=? 2147483647) eqn:E.
+  - replace (-2147483648 <=? z) with true by lia. cbn [andb]. split; [reflexivity|]. cbn. apply Z.eqb_refl.
+  - rewrite andb_false_r. split; [reflexivity|]. cbn. apply Z.eqb_refl.
+Qed.
+
+Lemma readback_uint64_small z : 0 <= z <= 9223372036854775807 ->
+  readback (JUInt64 z) = narrow z /\ value_eq (JUInt64 z) (readback (JUInt64 z)) = true.
+Proof.
+  intros R. cbn [readback]. unfold sat63. destruct (9223372036854775807 <? z) eqn:E; [lia|].
+  split; [reflexivity|]. unfold narrow. destruct (fits32 z); cbn; apply Z.eqb_refl.
+Qed.
+
+Lemma readback_uint64_big z : 9223372036854775807 < z ->
+  readback (JUInt64 z) = JInt64 9223372036854775807 /\ value_eq (JUInt64 z) (readback (JUInt64 z)) = false.
+Proof.
+  intros R. cbn [readback]. unfold sat63. destruct (9223372036854775807 <? z) eqn:E; [|lia].
+  split; [reflexivity|]. cbn. lia.
 Qed.
